@@ -1,6 +1,6 @@
 From Coq Require Import List ZArith Extraction ExtrOcamlBasic.
 Require Import MayV.Sync.ChanMpscModel MayV.Sync.ChanMpscAccept.
-Definition m_init := ChanMpscAccept.m_init.
-Definition m_accept := ChanMpscAccept.accept_ev.
-Definition m_final := ChanMpscAccept.monitors_ok.
+Definition m_init := ChanMpscAccept.m_initm.
+Definition m_accept := ChanMpscAccept.accept_evm.
+Definition m_final := ChanMpscAccept.monitors_okm.
 Extraction "../ocaml/gen/chan_mpsc_model.ml" m_init m_accept m_final.
